@@ -489,6 +489,8 @@ FIXED = [
                                                          ["set", [["real", "2.50"]]]]]]]]], ["b", ["int", "2", 2]]]]]]),
     ("OBJECT = o\n OBJECT = p\n  OBJECT = q\n   x = 1.0E+10 <km/s>\n  END_OBJECT\n END_OBJECT\nEND_OBJECT\nEND",
      [["o", ["object", [["p", ["object", [["q", ["object", [["x", ["q", ["real", "1.0E+10"], "<km/s>", "km/s"]]]]]]]]]]]]),
+    # a '#' comment: only the permissive grammar takes it (shows what an explicitly passed decoder does to loads())
+    ("a = 1.5 # note\nb = 2\nEND", [["a", ["real", "1.5"]], ["b", ["int", "2", 2]]]),
     ("a = TRUE\nb = NULL\nc = 1\nd = 1.\nEND", [["a", ["kw", "TRUE", True]], ["b", ["kw", "NULL", None]],
                                                  ["c", ["int", "1", 1]], ["d", ["real", "1."]]]),
 ]
